@@ -6,6 +6,7 @@
   `CSpec.checkPrune` / `CSpec.dumpInvariant`).
 -/
 import Resolved.Spec.CacheSpec
+import Resolved.Proofs.CachePruneSpec
 
 namespace Resolved
 
@@ -47,5 +48,238 @@ theorem C15_overflow_flag (c c' : PCache) (now : Nat) (r : Bool × Nat × Nat ×
   · split at h
     · cases h
     · cases h; rfl
+
+/-! ## The structural invariant `Inv` (defined in `Proofs/CacheInv.lean`) is inductive
+
+`Inv c` is the conjunction of: I1 distinct partition keys, distinct record keys, every partition
+holds at least one tuple; I2 `size`/`current_size` are the tuple counts; I3 `next_expiry` is the
+least expiry of the partition; I4 both queues hold exactly the partition keys once, with priorities
+`last_read` / `next_expiry`; I5 no value twice in a tuple list; I6 tuples are filed under their own
+record type. -/
+
+/-- `Inv` spelled out in the vocabulary of the model alone (no helper definitions). -/
+theorem C15_inv_iff (c : PCache) :
+    Inv c ↔
+      (c.partitions.map (·.1)).Nodup ∧
+      (∀ kp ∈ c.partitions,
+        (kp.2.records.map (·.1)).Nodup ∧
+        kp.2.size = (kp.2.records.map (fun r => r.2.length)).sum ∧
+        ((∃ t ∈ kp.2.records.flatMap (·.2), t.2 = kp.2.nextExpiry) ∧
+          ∀ t ∈ kp.2.records.flatMap (·.2), kp.2.nextExpiry ≤ t.2) ∧
+        (∀ r ∈ kp.2.records, (r.2.map (·.1)).Nodup) ∧
+        (∀ r ∈ kp.2.records, ∀ t ∈ r.2, t.1.rtype = r.1)) ∧
+      c.currentSize = (c.partitions.map (·.2.size)).sum ∧
+      (c.accessPriority.map (·.1)).Nodup ∧
+      (∀ k x, (k, x) ∈ c.accessPriority ↔ ∃ p, (k, p) ∈ c.partitions ∧ p.lastRead = x) ∧
+      (c.expiryPriority.map (·.1)).Nodup ∧
+      (∀ k x, (k, x) ∈ c.expiryPriority ↔ ∃ p, (k, p) ∈ c.partitions ∧ p.nextExpiry = x) := by
+  constructor
+  · intro h
+    refine ⟨h.keysNodup, ?_, h.size_eq, h.aqNodup,
+      (queue_get_iff_mem _ h.aqNodup h.keysNodup).mp h.aq_get, h.eqNodup,
+      (queue_get_iff_mem _ h.eqNodup h.keysNodup).mp h.eq_get⟩
+    intro kp hkp
+    have hp := h.parts kp hkp
+    exact ⟨hp.keysNodup, hp.size_eq, hp.nextExpiry_min, hp.noDup, hp.rtype_eq⟩
+  · rintro ⟨h1, h2, h3, h4, h5, h6, h7⟩
+    refine ⟨h1, ?_, h3, h4, (queue_get_iff_mem _ h4 h1).mpr h5, h6, (queue_get_iff_mem _ h6 h1).mpr h7⟩
+    intro kp hkp
+    obtain ⟨a, b, d, e, f⟩ := h2 kp hkp
+    exact ⟨a, b, d, e, f⟩
+
+/-- The empty cache satisfies the invariant. -/
+theorem C15_inv_init (d : Nat) : Inv (PCache.new d) := Inv.new d
+
+/-- `upsert` keeps the invariant (regression guard for F14: the recomputation of `next_expiry`
+    after a duplicate is replaced must range over the whole partition). -/
+theorem C15_inv_upsert (c : PCache) (k : Name) (rk : Nat) (v : CRec) (ttl now : Nat)
+    (h : Inv c) (hrt : v.rtype = rk) : Inv (c.upsert k rk v ttl now) :=
+  h.upsert k ttl now hrt
+
+theorem C15_inv_getTouch (c : PCache) (k : Name) (rk now : Nat) (h : Inv c) :
+    Inv (c.getTouch k rk now).1 := h.getTouch k rk now
+
+theorem C15_inv_getPartitionTouch (c : PCache) (k : Name) (now : Nat) (h : Inv c) :
+    Inv (c.getPartitionTouch k now).1 := h.getPartitionTouch k now
+
+theorem C15_inv_removeExpiredStep (c : PCache) (now : Nat) (h : Inv c) :
+    Inv (c.removeExpiredStep now).1 := h.removeExpiredStep now
+
+theorem C15_inv_removeLRU (c : PCache) (h : Inv c) : Inv c.removeLRU.1 := h.removeLRU
+
+/-- Every operation of the shared cache keeps the invariant. -/
+theorem C15_inv_step (c : PCache) (h : Inv c) :
+    (∀ rr now, Inv (sharedInsert c rr now)) ∧
+    (∀ rrs now, Inv (sharedInsertAll c rrs now)) ∧
+    (∀ name qtype now, Inv (cacheGet c name qtype now).1) ∧
+    (∀ name qtype now, Inv (cacheGetUnchecked c name qtype now).1) ∧
+    (∀ now c' r, c.prune now = some (c', r) → Inv c') :=
+  ⟨h.sharedInsert, h.sharedInsertAll, h.cacheGet, h.cacheGetUnchecked, fun _ _ _ hp => h.prune hp⟩
+
+/-- The invariant holds after any history of operations from the empty cache. -/
+theorem C15_inv_reachable (d : Nat) (ops : List CacheOp) : Inv (run d ops) :=
+  (Inv.new d).runFrom ops
+
+/-! ## Termination -/
+
+/-- On a state satisfying the invariant both loops of `prune` finish (within the model's fuel):
+    `prune` returns. -/
+theorem C15_prune_terminates (c : PCache) (now : Nat) (h : Inv c) : ∃ r, c.prune now = some r :=
+  h.prune_terminates now
+
+/-- … and along any history `prune` always returns. -/
+theorem C15_prune_terminates_reachable (d : Nat) (ops : List CacheOp) (now : Nat) :
+    ∃ r, (run d ops).prune now = some r :=
+  C15_prune_terminates _ now (C15_inv_reachable d ops)
+
+/-- Without the invariant the eviction loop need not terminate: a counter that claims one record
+    while nothing is stored makes `while current_size > desired_size` spin (fuel exhausted). -/
+example : ({ partitions := [], accessPriority := [], expiryPriority := [], currentSize := 1,
+             desiredSize := 0 } : PCache).prune 0 = none := by decide
+
+/-! ## What `prune` does
+
+Vocabulary (`Proofs/CachePruneSpec.lean`): `liveRecs rs now` = the record map with the tuples of
+expiry `≤ now` dropped; `liveCount now p` = number of tuples of `p` with expiry `> now`;
+`expiredTotal c now` / `liveTotal c now` = number of tuples of the cache with expiry `≤ now` / `> now`;
+`psum f ps` = `Σ f p` over a partition list. -/
+
+/-- Survivors: every partition of the result is a partition of the input, with exactly its live
+    tuples (same lists, same order) and the same `last_read` — nothing is invented or altered. -/
+theorem C15_survivors (c c' : PCache) (now : Nat) (r : Bool × Nat × Nat × Nat) (h : Inv c)
+    (hp : c.prune now = some (c', r)) :
+    ∀ kp' ∈ c'.partitions, ∃ kp ∈ c.partitions, kp.1 = kp'.1 ∧
+      kp'.2.records = liveRecs kp.2.records now ∧ kp'.2.lastRead = kp.2.lastRead := by
+  obtain ⟨c1, hi1, hi2, s1, _, _, _, l7, _⟩ := h.prune_spec hp
+  intro kp' hkp'
+  rw [l7] at hkp'
+  have hk1 := (List.mem_filter.mp hkp').1
+  rw [s1] at hk1
+  obtain ⟨kp, hkp, hpk⟩ := List.mem_filterMap.mp hk1
+  obtain ⟨hk, hpp⟩ := purgeKP_some hpk
+  obtain ⟨hrec, hlr, _, _⟩ := purgeP_some (h.parts kp hkp) hpp
+  exact ⟨kp, hkp, hk.symm, hrec, hlr⟩
+
+/-- No expired record is left behind. -/
+theorem C15_no_expired_left (c c' : PCache) (now : Nat) (r : Bool × Nat × Nat × Nat) (h : Inv c)
+    (hp : c.prune now = some (c', r)) :
+    ∀ kp ∈ c'.partitions, ∀ t ∈ tuplesOf kp.2.records, t.2 > now := by
+  intro kp' hkp' t ht
+  obtain ⟨kp, _, _, hrec, _⟩ := C15_survivors c c' now r h hp kp' hkp'
+  rw [hrec, tuplesOf_liveRecs] at ht
+  simpa using (List.mem_filter.mp ht).2
+
+/-- The reported tuple is true: `has_overflowed` = "was over the desired size", `current_size` =
+    the number of records now stored, `num_expired` = the number of records whose expiry was
+    `≤ now`, `num_pruned` = the number of live records of the partitions that did not survive. -/
+theorem C15_counts_true (c c' : PCache) (now : Nat) (over : Bool) (n e p : Nat) (h : Inv c)
+    (hp : c.prune now = some (c', (over, n, e, p))) :
+    over = decide (c.currentSize > c.desiredSize) ∧
+    n = c'.currentSize ∧ n = PCache.totalTuples c' ∧
+    e = expiredTotal c now ∧
+    p = psum (liveCount now) (c.partitions.filter (fun kp => !decide (kp.1 ∈ AL.keys c'.partitions))) ∧
+    e + p + n = PCache.totalTuples c := by
+  obtain ⟨c1, hi1, hi2, s1, scs, _, _, l7, _, _, _, r1, r2, r3, r4⟩ := h.prune_spec hp
+  simp only at r1 r2 r3 r4
+  have hsurv : c'.currentSize =
+      psum (liveCount now) (c.partitions.filter (fun kp => decide (kp.1 ∈ AL.keys c'.partitions))) := by
+    rw [← hi2.totalTuples_eq, totalTuples_eq_psum]
+    conv => lhs; rw [l7, s1]
+    exact psum_filter_purge now (fun k => decide (k ∈ AL.keys c'.partitions)) h.parts
+  have hsplit := psum_filter_add (liveCount now) (fun kp => decide (kp.1 ∈ AL.keys c'.partitions)) c.partitions
+  have hall := expired_add_live_total c now
+  unfold liveTotal at scs hall
+  refine ⟨r1, r2, by rw [hi2.totalTuples_eq]; exact r2, r3, ?_, ?_⟩ <;> omega
+
+/-- Least-recently-used order: a partition that still had live records but did not survive was
+    last read no later than every survivor. -/
+theorem C15_lru (c c' : PCache) (now : Nat) (r : Bool × Nat × Nat × Nat) (h : Inv c)
+    (hp : c.prune now = some (c', r)) :
+    ∀ kp ∈ c.partitions, liveCount now kp.2 > 0 → kp.1 ∉ AL.keys c'.partitions →
+      ∀ kp' ∈ c'.partitions, kp.2.lastRead ≤ kp'.2.lastRead := by
+  obtain ⟨c1, hi1, hi2, s1, _, _, _, _, l2, _⟩ := h.prune_spec hp
+  intro kp hkp hlive hnot kp' hkp'
+  cases hpk : purgeKP now kp with
+  | none =>
+    have : purgeP now kp.2 = none := by
+      unfold purgeKP at hpk
+      cases hpp : purgeP now kp.2 with
+      | none => rfl
+      | some p' => rw [hpp] at hpk; cases hpk
+    have := purgeP_none this
+    omega
+  | some kp1 =>
+    obtain ⟨hk, hpp⟩ := purgeKP_some hpk
+    obtain ⟨_, hlr, _, _⟩ := purgeP_some (h.parts kp hkp) hpp
+    have hmem : (kp.1, kp1.2) ∈ c1.partitions := by
+      rw [s1, ← hk]; exact List.mem_filterMap.mpr ⟨kp, hkp, hpk⟩
+    have := l2 kp.1 kp1.2 (AL.get_of_mem hi1.keysNodup hmem) (AL.get_eq_none_iff.mpr hnot)
+      kp'.1 kp'.2 (AL.get_of_mem hi2.keysNodup hkp')
+    omega
+
+/-- Eviction happens only while over size: if the live records alone fit, nothing is evicted
+    (the result is exactly the purged input) … -/
+theorem C15_evicts_only_while_over (c c' : PCache) (now : Nat) (r : Bool × Nat × Nat × Nat) (h : Inv c)
+    (hp : c.prune now = some (c', r)) (hfit : liveTotal c now ≤ c.desiredSize) :
+    r.2.2.2 = 0 ∧ c'.partitions = c.partitions.filterMap (purgeKP now) ∧
+      ∀ kp ∈ c.partitions, liveCount now kp.2 > 0 → kp.1 ∈ AL.keys c'.partitions := by
+  obtain ⟨c1, hi1, hi2, s1, scs, sds, _, _, _, _, l5, _⟩ := h.prune_spec hp
+  obtain ⟨rfl, h0⟩ := l5 (by omega)
+  refine ⟨h0, s1, ?_⟩
+  intro kp hkp hlive
+  cases hpk : purgeKP now kp with
+  | none =>
+    have : purgeP now kp.2 = none := by
+      unfold purgeKP at hpk
+      cases hpp : purgeP now kp.2 with
+      | none => rfl
+      | some p' => rw [hpp] at hpk; cases hpk
+    have := purgeP_none this
+    omega
+  | some kp1 =>
+    obtain ⟨hk, _⟩ := purgeKP_some hpk
+    rw [s1, ← hk]
+    exact AL.mem_keys_of_mem (List.mem_filterMap.mpr ⟨kp, hkp, hpk⟩)
+
+/-- … and no more than needed: if anything was evicted, then putting back (the live records of)
+    one of the evicted partitions — the last one evicted — would exceed the desired size. -/
+theorem C15_evicts_no_more_than_needed (c c' : PCache) (now : Nat) (r : Bool × Nat × Nat × Nat) (h : Inv c)
+    (hp : c.prune now = some (c', r)) (hev : r.2.2.2 ≠ 0) :
+    ∃ kp ∈ c.partitions, kp.1 ∉ AL.keys c'.partitions ∧ liveCount now kp.2 > 0 ∧
+      c'.currentSize + liveCount now kp.2 > c'.desiredSize := by
+  obtain ⟨c1, hi1, hi2, s1, _, _, _, _, _, l4, _⟩ := h.prune_spec hp
+  obtain ⟨k, p1, hg1, hg2, hsz⟩ := l4 hev
+  have hm := AL.mem_of_get hg1
+  rw [s1] at hm
+  obtain ⟨kp, hkp, hpk⟩ := List.mem_filterMap.mp hm
+  obtain ⟨hk, hpp⟩ := purgeKP_some hpk
+  simp only at hk hpp
+  obtain ⟨hrec, _, _, _⟩ := purgeP_some (h.parts kp hkp) hpp
+  have hp1 := hi1.pinv_of_get hg1
+  have hcnt : p1.size = liveCount now kp.2 := by rw [hp1.size_eq, hrec]; rfl
+  have := hp1.one_le_size
+  refine ⟨kp, hkp, ?_, by omega, by omega⟩
+  rw [← hk]; exact AL.get_eq_none_iff.mp hg2
+
+/-- non-vacuity: a two-record history, its invariant, and a prune that evicts -/
+example : (run 1 [.insert ⟨⟨[[97], []], 3⟩, 1, [], 1, 5⟩ 0, .insert ⟨⟨[[98], []], 3⟩, 1, [], 1, 7⟩ 1]).currentSize = 2 := by
+  decide
+
+example : ((run 1 [.insert ⟨⟨[[97], []], 3⟩, 1, [], 1, 5⟩ 0, .insert ⟨⟨[[98], []], 3⟩, 1, [], 1, 7⟩ 1]).prune 2).map (·.2)
+    = some (true, 1, 0, 1) := by decide
+
+/-- non-vacuity of the `prune` theorems: three names, desired size 1; at t = 8 s the first record
+    (TTL 5 s) has expired, the two live ones exceed the size, the older-read one is evicted:
+    `(has_overflowed, current_size, num_expired, num_pruned) = (true, 1, 1, 1)` and the survivor
+    is the most recently used name. -/
+example :
+    let a : RR := ⟨⟨[[97], []], 3⟩, 1, [], 1, 5⟩
+    let b : RR := ⟨⟨[[98], []], 3⟩, 1, [], 1, 60⟩
+    let d : RR := ⟨⟨[[99], []], 3⟩, 1, [], 1, 60⟩
+    let st := run 1 [.insert a 0, .insert b NANOS, .insert d (2 * NANOS)]
+    (st.prune (8 * NANOS)).map (·.2) = some (true, 1, 1, 1) ∧
+    (st.prune (8 * NANOS)).map (·.1.partitions.map (·.1)) = some [d.name] ∧
+    expiredTotal st (8 * NANOS) = 1 ∧ liveTotal st (8 * NANOS) = 2 := by
+  decide
 
 end Resolved
